@@ -10,7 +10,7 @@
 (***************************************************************************)
 EXTENDS Naturals, Sequences, TLC, Json
 
-CONSTANTS MaxLen, Detect
+CONSTANTS MaxLen, Detect, Tr      \* Tr: "sgio" (device node, replug detection) or "iscsi" (no node to go stale)
 
 VARIABLES node, fresh, disk, mine, fault, hist, exported
 vars == <<node, fresh, disk, mine, fault, hist, exported>>
@@ -27,7 +27,7 @@ Room == Len(hist) < MaxLen /\ ~exported
 \* how one command fares on its way to the target: <<outcome, reaches the target, handle fresh afterwards>>
 Path == IF Detect /\ node = "absent" THEN <<"FileNotFoundError", FALSE, fresh>>
         ELSE IF fault = "cc" THEN <<"CheckCondition", FALSE, IF Detect THEN TRUE ELSE fresh>>
-        ELSE IF fault = "busy" THEN <<"UnspecifiedError", FALSE, IF Detect THEN TRUE ELSE fresh>>
+        ELSE IF fault = "busy" THEN <<IF Tr = "sgio" THEN "UnspecifiedError" ELSE "BusyStatus", FALSE, IF Detect THEN TRUE ELSE fresh>>
         ELSE <<"ok", TRUE, IF Detect THEN TRUE ELSE fresh>>
 \* a fault is consumed by the command that reaches the binding
 FaultAfter == IF Detect /\ node = "absent" THEN fault ELSE "none"
@@ -55,15 +55,15 @@ Reattach ==
     /\ UNCHANGED <<node, disk, mine, exported>>
 Env(a) ==
     /\ Room
-    /\ \/ a = "replug" /\ node = "present" /\ node' = node /\ fresh' = FALSE /\ fault' = fault
-       \/ a = "unplug" /\ node = "present" /\ node' = "absent" /\ fresh' = FALSE /\ fault' = fault
-       \/ a = "plug" /\ node = "absent" /\ node' = "present" /\ fresh' = FALSE /\ fault' = fault
+    /\ \/ a = "replug" /\ Tr = "sgio" /\ node = "present" /\ node' = node /\ fresh' = FALSE /\ fault' = fault
+       \/ a = "unplug" /\ Tr = "sgio" /\ node = "present" /\ node' = "absent" /\ fresh' = FALSE /\ fault' = fault
+       \/ a = "plug" /\ Tr = "sgio" /\ node = "absent" /\ node' = "present" /\ fresh' = FALSE /\ fault' = fault
        \/ a = "arm_cc" /\ fault = "none" /\ fault' = "cc" /\ UNCHANGED <<node, fresh>>
        \/ a = "arm_busy" /\ fault = "none" /\ fault' = "busy" /\ UNCHANGED <<node, fresh>>
     /\ hist' = Append(hist, [act |-> a, lba |-> 0, val |-> 0, out |-> "ok", data |-> 0])
     /\ UNCHANGED <<disk, mine, exported>>
 Export == /\ Len(hist) = MaxLen /\ ~exported
-          /\ PrintT(<<"BEHAVIOUR", ToJson([detect |-> Detect, steps |-> hist])>>)
+          /\ PrintT(<<"BEHAVIOUR", ToJson([detect |-> Detect, tr |-> Tr, steps |-> hist])>>)
           /\ exported' = TRUE /\ UNCHANGED <<node, fresh, disk, mine, fault, hist>>
 
 Next == \/ \E l \in LBAs, v \in Vals : Write(l, v)
